@@ -31,7 +31,8 @@ LEVEL_ASSUMPTIONS = [
     "real decode() and judged by vlib/oracles/packing.py; when the tracer "
     "cannot classify a change the packability clause is inconclusive for "
     "that call (exhaustive packer for <= 7 items instead)"]
-REQUIRED = {"decodes_judged": 500, "witness_layouts_judged": 400,
+REQUIRED = {"template[synthetic-unit-filled]": 10,
+            "template[synthetic-thin]": 10, "decodes_judged": 500, "witness_layouts_judged": 400,
             "tracer_splits": 2000, "tracer_shrinks": 300,
             "hardness_evaluations": 10, "errors_of_template_zero": 5,
             "extreme_value_vectors": 100}
@@ -223,6 +224,27 @@ def gen_vector(rng, dim, base_dim):
 
 
 def synthetic_template(rng):
+    kind = int(rng.integers(5))
+    if kind == 0:
+        # bins completely filled by unit items: every split needs the
+        # wrap-around of the item search and the switch of the direction
+        W = int(rng.integers(1, 5))
+        H = int(rng.integers(1, 5))
+        if W * H == 1:
+            W = 2
+        k = int(rng.integers(1, 4))
+        return {"name": wb._name(rng), "W": W, "H": H,
+                "items": [[1, 1, W * H * k]], "cls": "synthetic-unit-filled"}
+    if kind == 1:
+        # 1-wide / 1-high bins, unit and short items
+        L = int(rng.integers(2, 9))
+        W, H = (1, L) if rng.integers(2) else (L, 1)
+        items = [[1, 1, int(rng.integers(2, 2 * L + 1))]]
+        if rng.integers(2):
+            ln = int(rng.integers(2, L + 1))
+            items.append([ln, 1, 1] if W > 1 else [1, ln, 1])
+        return {"name": wb._name(rng), "W": W, "H": H, "items": items,
+                "cls": "synthetic-thin"}
     W = int(rng.integers(3, 40))
     H = int(rng.integers(3, 40))
     k = int(rng.integers(1, 6))
@@ -267,6 +289,8 @@ def one(ctx, tcase, k, x=None, tag=None):
         ctx.count("extreme_value_vectors")
     ctx.count(f"vector[{tag}]")
     ctx.count(f"slack_pairs[{k}]")
+    ctx.count("template[" + (tcase if isinstance(tcase, str)
+                             else tcase.get("cls", "?"))[:24] + "]")
     STATE["case"] = {"kind": "vector", "template": tcase, "k": k,
                      "x": [float(v) for v in x], "tag": tag}
     ctx.case()
